@@ -16,8 +16,21 @@ impl Punct {
     pub fn spacing(&self) -> Spacing { self.spacing }
 }
 
-#[derive(Clone, Copy, Debug, PartialEq, Eq)]
-pub struct Ident { pub idx: u32, pub keyword: bool }
+/// an identifier: a token of the harness's token array (`idx`, its text is the descriptor's one-byte name) or one made by
+/// `format_ident!` (`idx == u32::MAX`, text = the formatted string)
+#[derive(Clone, Copy, Debug)]
+pub struct Ident { pub idx: u32, pub keyword: bool, pub text: *const u8, pub text_len: usize }
+impl Ident {
+    pub fn text(&self) -> &[u8] { unsafe { core::slice::from_raw_parts(self.text, self.text_len) } }
+}
+impl PartialEq for Ident {
+    fn eq(&self, o: &Ident) -> bool { self.text() == o.text() }
+}
+impl Eq for Ident {}
+/// syn / proc_macro2: an identifier compares with anything string-like by its text
+impl<T: ?Sized + AsRef<str>> PartialEq<T> for Ident {
+    fn eq(&self, o: &T) -> bool { self.text() == o.as_ref().as_bytes() }
+}
 
 /// any token tree (the scanner never looks inside one)
 #[derive(Clone, Copy, Debug)]
